@@ -88,6 +88,17 @@ theorem lCycleIterate_eq (prm : LGMRES.Params K) (sqrt : K → K) (A : CRS K) (P
   rw [h.g] at this
   exact congrArg GMRES.St.x this
 
+/-- when the buffer `outer_v` is empty at the first `break` test of a call: `always_reset` (lgmres.hpp:217-219), or a freshly
+constructed object -/
+theorem lgmres_buffer_empty (prm : LGMRES.Params K) (ws : LGMRES.Work K) (n : ℕ) :
+    (prm.alwaysReset = true → (LGMRES.reset prm ws).ov.size = 0) ∧
+    (LGMRES.reset prm (LGMRES.Work.fresh n : LGMRES.Work K)).ov.size = 0 ∧
+    ∀ (sqrt : K → K) (A : CRS K) (P : Vec K → Vec K) (f x0 : Vec K),
+      (LGMRES.init prm stdIp sqrt A P (LGMRES.reset prm ws) f x0).w.ov = (LGMRES.reset prm ws).ov := by
+  refine ⟨fun h => ?_, ?_, fun sqrt A P f x0 => linit_ov prm sqrt A P _ f x0⟩
+  · unfold LGMRES.reset; rw [if_pos h]; rfl
+  · unfold LGMRES.reset; split <;> rfl
+
 /-- **`lgmres_first_cycle_refines_gmres`.**  (1) In every restart cycle the first `MM − |outer_v|` passes are passes of
 `GMRES.step` on the shared arrays and leave `ws[i] = vs[i]`; (2) with an empty buffer and `1 ≤ MM` the inner loop, the cycle
 and the following `head` of LGMRES(M, K) are those of GMRES with restart length `M + K`; (3) LGMRES(M, 0) is GMRES(M) call by
